@@ -2,6 +2,7 @@ package main
 
 import (
 	"fmt"
+	"go/token"
 	"go/types"
 	"os"
 	"path/filepath"
@@ -355,6 +356,23 @@ func r084(c *Ctx, rule string) {
 	for _, cs := range callsToName(gt, "fmt.Sprintf") {
 		if f, ok := constString(cs.common().Args[0]); ok && f == "%d.html" {
 			okL = true
+		}
+	}
+	// ... or strconv.Itoa(status) + ".html"
+	for _, b := range gt.Blocks {
+		for _, in := range b.Instrs {
+			bo, ok := in.(*ssa.BinOp)
+			if !ok || bo.Op != token.ADD {
+				continue
+			}
+			if sfx, isK := constString(bo.Y); isK && sfx == ".html" {
+				if call, isCall := bo.X.(*ssa.Call); isCall {
+					switch calleeName(call.Common()) {
+					case "strconv.Itoa", "strconv.FormatInt", "fmt.Sprint":
+						okL = true
+					}
+				}
+			}
 		}
 	}
 	c.ob(rule, "getTemplate/looks-up-status.html", gt.Pos(), okL, true, "")
